@@ -7,6 +7,8 @@
 -/
 import GraphiqModel.Proofs.SweepCommuteDM
 import GraphiqModel.Proofs.CommuteTableau
+import GraphiqModel.Proofs.HilbertDimHistory
+import Mathlib.Analysis.Matrix.PosDef
 namespace Graphiq.Commute
 open Graphiq Matrix Classical
 open Graphiq.Wire (Reg RegType SOp Item Kind G1 runSeq)
@@ -140,5 +142,64 @@ theorem runSeq_appD_refines (ne np : Nat) : ∀ (l : List SOp), (∀ a ∈ l, (g
       rw [h1]; exact h2
     · show runSeq (appD ne np) l (appD ne np a (some (Hilbert.tabRho (ne + np) s.t, sc))) = _
       rw [e1]; exact e2
+
+/-! ## the measurement primitive: Born weight times the post-measurement tableau -/
+
+/-- scalar multiples pass through a primitive -/
+theorem appPD_smul (n : Nat) (p : Tab.Op) (c : ℂ) (ρ ρ' : Hilbert.DMat n) (h : appPD n p (some ρ) = some ρ') :
+    appPD n p (some (c • ρ)) = some (c • ρ') := by
+  unfold appPD at h ⊢
+  split at h
+  · next hok =>
+    rw [if_pos hok]
+    simp only [Option.map_some, Option.some.injEq] at h ⊢
+    rw [← h, Matrix.mul_smul, Matrix.smul_mul]
+  · cases h
+
+open scoped ComplexOrder in
+/-- **the measurement primitive of the density-matrix semantics refines `z_measurement_gate`** (C07's `meas_density`): on
+    `ρ(t)` with recorded outcome `o` it returns `w · ρ(t')`, where `t'` is the tableau the API call returns and `w` is the
+    Born probability `tr(Π_o ρ)` of the recorded outcome if that outcome can occur (then it is the outcome the API
+    reports), and `0` — the zero matrix, an impossible branch — if it cannot -/
+theorem appPD_meas_tab (t : Tab) (q : Nat) (o : Bool) (hq : q < t.n) (hv : t.Valid) (hr : t.StabReal) :
+    appPD t.n (.meas q o) (some (Hilbert.tabRho t.n t)) =
+      some ((if (t.zMeasure q o).2.1 = o then Matrix.trace (Hilbert.proj t.n (PRow.Zq q o) * Hilbert.tabRho t.n t) else 0) •
+        Hilbert.tabRho t.n (t.zMeasure q o).1) := by
+  have hok : primOk t.n (.meas q o) = true := by simpa [primOk] using hq
+  unfold appPD
+  rw [if_pos hok]
+  simp only [Option.map_some]
+  congr 1
+  show Hilbert.projZ t.n q o * Hilbert.tabRho t.n t * (Hilbert.projZ t.n q o)ᴴ = _
+  rw [Hilbert.projZ_eq t.n q hq o, Hilbert.proj_Zq_hermitian]
+  obtain ⟨h1, h2, _⟩ := Hilbert.meas_density t q o hq hv hr
+  have hρ : Hilbert.tabRho t.n t = Hilbert.rho t.n (STab.ofTab t) := rfl
+  rw [hρ]
+  by_cases hout : (t.zMeasure q o).2.1 = o
+  · rw [if_pos hout]
+    rw [hout] at h1
+    have htr : Matrix.trace (Hilbert.proj t.n (PRow.Zq q o) * Hilbert.rho t.n (STab.ofTab t)) ≠ 0 := by
+      intro h0
+      unfold Hilbert.measOutcome at h1
+      rw [if_pos h0] at h1
+      cases o <;> cases h1
+    unfold Hilbert.postMeas at h2
+    rw [h1] at h2
+    show _ = _ • Hilbert.rho t.n (STab.ofTab (t.zMeasure q o).1)
+    rw [← h2, smul_smul, mul_inv_cancel₀ htr, one_smul]
+  · rw [if_neg hout, zero_smul]
+    -- the recorded outcome has probability 0: the branch is the zero matrix
+    have h0 : Matrix.trace (Hilbert.proj t.n (PRow.Zq q o) * Hilbert.rho t.n (STab.ofTab t)) = 0 := by
+      by_contra hne
+      unfold Hilbert.measOutcome at h1
+      rw [if_neg hne] at h1
+      exact hout h1.symm
+    have hg := Hilbert.ofTab_good t hv
+    have hpsd : (Hilbert.rho t.n (STab.ofTab t)).PosSemidef :=
+      Hilbert.posSemidef_of_projector _ (Hilbert.rho_idem _ hg) (Hilbert.rho_hermitian _ hg)
+    have hpsd2 : (Hilbert.proj t.n (PRow.Zq q o) * Hilbert.rho t.n (STab.ofTab t) * (Hilbert.proj t.n (PRow.Zq q o))ᴴ).PosSemidef :=
+      hpsd.mul_mul_conjTranspose_same _
+    rw [Hilbert.proj_Zq_hermitian] at hpsd2
+    exact hpsd2.trace_eq_zero_iff.1 (by rw [Hilbert.trace_proj_sandwich t.n _ rfl]; exact h0)
 
 end Graphiq.Commute
